@@ -13,7 +13,7 @@ func init() {
 	Register("C03", "Decides structural necessary conditions of 'plain JSON is a valid schema and is preserved': (escape) decoded keys/values are JSON-encoded again before they are written into an example; (literal) the example of a literal node is the raw literal span of its lexeme, untransformed; (order) children and keys are emitted by position from the same ordered containers (no map iteration); (subset) every JSON text without exponent numbers is accepted by the schema scanner: one-directional lock-step simulation of the RFC 8259 reference by the extracted schema-scanner model. Does NOT decide value equality of the round trip or the AST shape.",
 		jsonSinkRule("C03.escape", "an example (exampleBuilder)", func(pkgRel, fn string) bool {
 			return pkgRel == "notations/jschema" && strings.Contains(fn, "exampleBuilder")
-		}, 4),
+		}, 2),
 		c03literal, c03order, c03subset, c03unquote, trimQuoteRule("C03.trimquote"), keyEncoderRule("C03.keyencoder"), decodeOnceRule("C03.decodeonce"), strClassRule("C03.strclass"), stackRule("C03.stack"), noLimitRule("C03.nolimit"))
 }
 
@@ -81,10 +81,10 @@ func c03order(c *core.Ctx) {
 		}
 		bad := ""
 		sliceRange := false
-		ast.Inspect(d.Decl.Body, func(n ast.Node) bool {
+		inspectDeep(c, d, 2, func(hd *core.DeclSite, n ast.Node) bool {
 			switch l := n.(type) {
 			case *ast.RangeStmt:
-				t := core.TypeOf(d.Pkg, l.X)
+				t := core.TypeOf(hd.Pkg, l.X)
 				if t == nil {
 					return true
 				}
@@ -99,7 +99,7 @@ func c03order(c *core.Ctx) {
 				if l.Cond != nil {
 					ast.Inspect(l.Cond, func(m ast.Node) bool {
 						if call, ok := m.(*ast.CallExpr); ok && core.ExprStr(call.Fun) == "len" && len(call.Args) == 1 {
-							if t := core.TypeOf(d.Pkg, call.Args[0]); t != nil {
+							if t := core.TypeOf(hd.Pkg, call.Args[0]); t != nil {
 								if _, isSlice := t.Underlying().(*types.Slice); isSlice {
 									sliceRange = true
 								}
